@@ -35,6 +35,7 @@ pub fn run(ctx: &mut Ctx, suite: &str) {
         "c08" => c06::run_c08(ctx),
         "c07" => c07::run(ctx),
         "c11" => c11::run(ctx),
+        "c11c" => c11::run_ctor(ctx),
         "c14" => c14::run(ctx),
         "c15" => c15::run(ctx),
         "c16" => c16::run(ctx),
@@ -44,6 +45,7 @@ pub fn run(ctx: &mut Ctx, suite: &str) {
         "c12" => c12::run_limit(ctx),
         "c12e" => c12::run_emfile(ctx),
         "c13" => c12::run_shutdown(ctx),
+        "c13e" => c12::run_shutdown_emfile(ctx),
         "c19" => c19::run(ctx),
         "c20" => c20::run(ctx),
         _ => {
@@ -63,6 +65,7 @@ pub fn replay(ctx: &mut Ctx, tag: &str, args: &[&str]) {
         "c06" | "c08" => c06::case(ctx, tag, args),
         "c07" => c07::case(ctx, args[0], args[1], args[2], args[3], args[4]),
         "c11" => c11::case(ctx, args[0]),
+        "c11c" => c11::case_ctor(ctx, args[0], args[1]),
         "c11t" => c11::case_stress(ctx, args[0], args[1]),
         "c14" => c14::case_ops(ctx, args[0], args[1]),
         "c14a" => c14::case_ascii(ctx, args[0], args[1]),
@@ -75,6 +78,7 @@ pub fn replay(ctx: &mut Ctx, tag: &str, args: &[&str]) {
         "c12t" => c12::case_tokens(ctx, args[0], args[1]),
         "c12" => c12::case_limit(ctx, args[0], args[1], args[2]),
         "c12e" => c12::case_emfile(ctx, args[0], args[1]),
+        "c13e" => c12::case_shutdown_emfile(ctx, args[0], args[1]),
         "c13" => c12::case_shutdown(ctx, args[0], args[1], args[2]),
         "c19s" => c19::case_set(ctx, args[0], args[1]),
         "c19w" => c19::case_writer(ctx, args[0], args[1], args[2], args[3], args[4]),
